@@ -39,6 +39,10 @@ def main(argv=None):
         ctx.stats['suppress_blocks_desugared_by_the_loader'] = prog.suppress_desugared
         ctx.stats['closing_blocks_desugared_by_the_loader'] = prog.closing_desugared
         ctx.stats['acquire_try_finally_release_folded_by_the_loader'] = prog.lock_blocks_folded
+        ctx.stats['tuple_assignments_split_by_the_loader'] = prog.tuple_assignments_split
+        ctx.stats['struct_object_uses_normalised_by_the_loader'] = prog.struct_objects_normalised
+        ctx.stats['inlined_temporaries_propagated_by_the_loader'] = prog.inlined_temporaries_propagated
+        ctx.stats['local_records_scalarised_by_the_loader'] = prog.local_records_scalarised
         ctx.stats['self_aliases_resolved_by_the_loader'] = prog.aliases_resolved
         ctx.stats['numeric_updates_normalised_by_the_loader'] = prog.updates_normalised
         ctx.stats['constant_first_comparisons_normalised_by_the_loader'] = prog.comparisons_normalised
